@@ -18,7 +18,23 @@ FAILS = [
     ("get_nil", ["{u}on: int? = nil"], "{u}gv = get {u}on"),
     ("list_index_len", ["{u}lq: [int...] = [1, 2]", "{u}k = 2"], "{u}e = {u}lq[{u}k]"),
     ("list_index_neg", ["{u}lq: [int...] = [1, 2]", "{u}k = -1"], "{u}e = {u}lq[{u}k]"),
+    # every consumer of an out-of-range element place (round 6: `l[i] += v` kept an unwrap() when the bounds check
+    # moved from the index instruction into the consumers)
+    ("list_index_assign", ["{u}lq: [int...] = [1, 2]", "{u}k = 2"], "{u}lq[{u}k] = 5"),
+    ("list_index_opassign_add", ["{u}lq: [int...] = [1, 2]", "{u}k = 2"], "{u}lq[{u}k] += 5"),
+    ("list_index_opassign_mul", ["{u}lq: [int...] = [1, 2]", "{u}k = 7"], "{u}lq[{u}k] *= 5"),
+    ("list_index_opassign_neg", ["{u}lq: [int...] = [1, 2]", "{u}k = -1"], "{u}lq[{u}k] -= 5"),
+    ("list_index_print", ["{u}lq: [int...] = [1, 2]", "{u}k = 2"], "print {u}lq[{u}k]"),
+    ("list_index_in_expression", ["{u}lq: [int...] = [1, 2]", "{u}k = 2"], "{u}e = {u}lq[{u}k] + 1"),
+    ("list_index_method_receiver", ["{u}lq: [int...] = [1, 2]", "{u}k = 2"], "{u}e = ({u}lq[{u}k]).to_str()"),
+    ("list_index_argument", ["{u}lq: [int...] = [1, 2]", "{u}k = 2", "{u}id = fn(q: int) -> int {{ return q }}"], "{u}e = {u}id({u}lq[{u}k])"),
+    ("list_index_empty_list", ["{u}lq: [int...] = [1]", "{u}d = {u}lq.remove(0)", "{u}k = 0"], "{u}e = {u}lq[{u}k]"),
+    ("nested_list_index_inner", ["{u}li: [int...] = [1]", "{u}lq: [[int...]...] = [{u}li]", "{u}k = 1"], "{u}e = {u}lq[0][{u}k]"),
+    ("nested_list_index_inner_opassign", ["{u}li: [int...] = [1]", "{u}lq: [[int...]...] = [{u}li]", "{u}k = 1"], "{u}lq[0][{u}k] += 1"),
+    ("nested_list_index_outer", ["{u}li: [int...] = [1]", "{u}lq: [[int...]...] = [{u}li]", "{u}k = 1"], "{u}e = {u}lq[{u}k][0]"),
     ("str_index", ["{u}s = \"ab\"", "{u}k = 5"], "{u}e = {u}s[{u}k]"),
+    ("str_index_print", ["{u}s = \"ab\"", "{u}k = 2"], "print {u}s[{u}k]"),
+    ("map_key_opassign_int", ["{u}mp = map[int, int] {{ 1: 1 }}", "{u}k = 4"], "{u}mp[{u}k] *= 2"),
     ("map_key_opassign", ["{u}mp = map[str, int] {{ \"a\": 1 }}"], "{u}mp[\"zz\"] += 1"),
     ("div_zero_int", ["{u}z = 0"], "{u}e = {x} / {u}z"),
     ("rem_zero_int", ["{u}z = 0"], "{u}e = {x} % {u}z"),
